@@ -4,8 +4,9 @@
 //!           "entry": "template" (Template::render_captured_to) | "block:<name>" (State::render_block_to_write after a
 //!                    render into a String) | "template+block:<name>" (render_captured_to, then render_block_to_write
 //!                    from the returned state into the SAME sink),
-//!           "formatter": true  -> Environment::set_formatter with a formatter that writes "{" , the escaped value, "}"
-//!                                 through the Output it is handed,
+//!           "formatter": true  -> Environment::set_formatter with a formatter that writes through the Output it is handed in
+//!                                 every way the API offers (write_str, write_char, write! with and without placeholders,
+//!                                 nested format_args!, escape_formatter), depending on the kind of the value,
 //!           "objects": true    -> the context gets `obj`, an Object whose render() writes three pieces into the formatter,
 //!           "sinks": [ {"script": [action, ...], "record": bool} , ... ]}
 //! An action answers ONE call of `io::Write::write`; after the script is used up every call is
@@ -248,10 +249,32 @@ fn run(req: &J) -> J {
         });
     }
     if req.get("formatter").and_then(|x| x.as_bool()).unwrap_or(false) {
+        // writes through the Output in EVERY way its API offers: write_str, write_char (fmt::Write), write! with a
+        // literal-only format string, write! with placeholders, several pieces per value, nested format_args!,
+        // and delegation to escape_formatter - which one depends on the kind of the value
         env.set_formatter(|out, state, value| {
+            use minijinja::value::ValueKind;
+            use std::fmt::Write as _;
             out.write_str("{")?;
-            minijinja::escape_formatter(out, state, value)?;
-            out.write_str("}")?;
+            match value.kind() {
+                ValueKind::None => write!(out, "null")?,
+                ValueKind::Undefined => write!(out, "undef{{}}")?,
+                ValueKind::Bool => {
+                    out.write_char(if value.is_true() { 'T' } else { 'F' })?;
+                    out.write_char('\u{e9}')?;
+                }
+                ValueKind::Number => write!(out, "n={}#{:>4}", value, "r")?,
+                ValueKind::Seq => {
+                    write!(out, "[")?;
+                    for item in value.try_iter()? {
+                        write!(out, "{}", format_args!("<{}|{}>", item, format_args!("{:?}", item.kind())))?;
+                        out.write_str(",")?;
+                    }
+                    write!(out, "]")?;
+                }
+                _ => minijinja::escape_formatter(out, state, value)?,
+            }
+            write!(out, "}}")?;
             Ok(())
         });
     }
